@@ -148,6 +148,15 @@ def c06_1(I, shape):
         I.check(ctype == ContentType.alert, "remote-alert-only-from-alert")
     else:
         I.check(isinstance(exc, TLSAbruptCloseError), "abrupt-close")
+        # the wire holds exactly one complete TLS record with a non-empty
+        # body: running into end-of-input means that record was silently
+        # dropped.  Only a first byte that is no TLS content type (read as an
+        # SSLv2 length) or a dropped TLS 1.3 compatibility CCS can end so.
+        known = OR([ctype == t for t in ContentType.all])
+        ccs13 = AND(version > (3, 3), ctype == ContentType.change_cipher_spec)
+        I.check(OR(NOT(known), ccs13),
+                "no-record-silently-dropped-during-a-handshake",
+                detail=lambda: dict(sent=[(r[0], list(r[2])) for r in sent]))
 
 
 def _shapes_c06_2(tier):
